@@ -2,7 +2,7 @@
 """Per-property definitions: side obligations on the translated facts, case
 generators for the correspondence streams, direct property oracles on the
 implementation's observations, failing-input searches."""
-import os, sys, json, random, time
+import os, sys, json, random, time, shutil
 import vlib
 from vlib import log
 
@@ -40,7 +40,7 @@ def run_tie2(prop, P, tier, rng, replay=None, facts=None):
     for spec in specs:
         stream = spec['stream']
         if 'custom' in spec:
-            r = spec['custom'](tier, rng, facts or {})
+            r = spec['custom'](tier, rng, facts or {}, replay) if spec.get('custom_replay') else spec['custom'](tier, rng, facts or {})
             cov['streams'][stream] = r['coverage']; cov['evaluations'] += r['evaluations']
             seen_nontrivial.update(r['nontrivial']); problems += r['problems']; rules.append('%s: %s' % (stream, spec['rule']))
             cov['samples'] += r.get('samples', [])
@@ -504,6 +504,235 @@ def search_conc(facts, tier, rng):
                 % (P.get('dec_ord'), P.get('acq_kind'), P.get('acq_ord'), P.get('uniq_ord'), '; '.join(sched)),
                 payload=dict(kind='model-counterexample', model='coq/theories/Conc.v', config=dict(dec=P.get('dec_ord'), acq=P.get('acq_ord'), uniq=P.get('uniq_ord')),
                              schedule=sched, replay='Eval vm_compute in raced_after Extracted.conc_cfg [%s]' % '; '.join(sched)))
+
+# ============================================================================
+# schedule stream (C02 C03 C08 C09): real threads of the crate, serialised by the harness, against the ConcX machine
+# ============================================================================
+SCHED_CODE = {'IDec': 1, 'IInc': 2, 'ILoad': 3, 'IRetIfNe': 4, 'IRetIfEq': 5, 'IDestroyFree': 6, 'IGrant': 7, 'ICloneVal': 8, 'IDropHandle': 9, 'IUnknown': 0}
+SCHED_ORD = {'ORlx': 0, 'ORel': 1, 'OAcq': 2, 'OAcqRel': 3}
+SCHED_KIND = {0: 'clone', 1: 'read', 2: 'write', 3: 'ungrant', 4: 'move-out', 5: 'send', 6: 'start drop', 7: 'start try_unique', 8: 'start unwrap_or_clone', 9: 'step'}
+def sched_enc_prog(instrs):
+    out = []
+    for i in instrs:
+        w = i.split(); c = SCHED_CODE.get(w[0], 0)
+        if c in (1, 2, 3): out += [c, SCHED_ORD.get(w[1], 0), 1 if w[2] == 'true' else 0]
+        elif c in (4, 5): out += [c, int(w[1]), 0]
+        else: out += [c, 0, 0]
+    return out
+
+# what each property's schedules are made of (weights of the ten label kinds)
+SCHED_PROFILES = {
+    'drops':  [[3, 5, 0, 0, 0, 5, 5, 0, 0, 18], [6, 4, 0, 0, 0, 8, 4, 0, 0, 14]],
+    'unique': [[2, 4, 4, 3, 2, 4, 3, 6, 0, 16], [5, 4, 3, 2, 1, 8, 3, 5, 0, 14]],
+    'unwrap': [[2, 4, 1, 1, 4, 4, 3, 2, 6, 18], [5, 3, 1, 1, 3, 8, 3, 2, 5, 14], [2, 3, 3, 2, 4, 4, 2, 5, 3, 16]],
+}
+def sched_gen(rng, profile, n, length):
+    W = rng.choice(SCHED_PROFILES[profile])
+    labels = []
+    for _ in range(length):
+        t = rng.randrange(n); k = rng.choices(range(10), weights=W)[0]
+        if k == 5: a = rng.randrange(n)
+        elif k == 9: a = rng.randrange(0, 6) if rng.random() < 0.25 else 1000
+        else: a = 0
+        labels.append([k, t, a])
+    return labels
+
+def sched_run(exe, cases, tag, timeout=600):
+    """run cases on one binary, sharded over the cores; -> (observations, crashed case ids, stray lines)"""
+    import concurrent.futures
+    tmpd = os.path.join(vlib.CACHE, 'run', tag)
+    shutil.rmtree(tmpd, ignore_errors=True); os.makedirs(tmpd)
+    n = max(1, min(vlib.NPROC, len(cases) // 100 + 1))
+    parts = [cases[i::n] for i in range(n)]
+    def one(i):
+        cf = os.path.join(tmpd, 'cases%d.txt' % i); vlib.write_cases(cf, parts[i])
+        rc, out, err = vlib.run_side(exe, 'sched', cf, timeout=timeout)
+        obs, stray = vlib.parse_obs(out)
+        crashed = []
+        if rc != 0:
+            rest = [c for c in parts[i] if c[0] not in obs]
+            if rest: crashed.append((rest[0][0], rc, err[-1500:]))
+            for c in rest[1:]:
+                cf1 = os.path.join(tmpd, 'single%d.txt' % i); vlib.write_cases(cf1, [c])
+                rc1, o1, e1 = vlib.run_side(exe, 'sched', cf1, timeout=60)
+                o1, _ = vlib.parse_obs(o1); obs.update(o1)
+                if rc1 != 0: crashed.append((c[0], rc1, e1[-1500:]))
+        return obs, crashed, stray
+    obs = {}; crashed = []; stray = []
+    with concurrent.futures.ThreadPoolExecutor(max_workers=n) as ex:
+        for o, c, st in ex.map(one, range(n)):
+            obs.update(o); crashed += c; stray += st
+    return obs, crashed, stray
+
+def sched_verdict(o):
+    """what the implementation-side bookkeeping says about one run (None: nothing wrong)"""
+    if o is None: return 'no output'
+    s900 = [l for l in o if l and l[0] == 900]; s901 = [l for l in o if l and l[0] == 901]
+    if not s900 or not s901: return 'no summary'
+    a, b = s900[0], s901[0]
+    why = []
+    if len(a) > 3 and a[3]: why.append('two accesses to the value or its block are not ordered by happens-before (data race), or something touched the block after its release, or the value was destroyed or released twice')
+    if len(a) > 4 and a[4]: why.append('no handle is left and the block was never released (leak)')
+    if len(b) > 1 and b[1]: why.append('a read found the payload destroyed')
+    if len(b) > 2 and b[2]: why.append('the destructor ran on a destroyed payload')
+    if len(b) > 3 and b[3]: why.append('the block was released although it was not live (double release)')
+    if len(b) > 4 and b[4]: why.append('a call panicked')
+    return '; '.join(why) or None
+
+def sched_describe(labels):
+    out = []
+    for l in labels:
+        if l[0] >= 900: continue
+        d = 'T%d %s' % (l[1], SCHED_KIND.get(l[0], '?'))
+        if l[0] == 5: d += ' to T%d' % l[2]
+        if l[0] == 9 and len(l) >= 8:
+            if l[3] == 2: d += ': %s(%s) read %d%s' % ({1: 'load', 2: 'fetch_add', 3: 'fetch_sub'}.get(l[5], '?'), {0: 'Relaxed', 1: 'Release', 2: 'Acquire', 3: 'AcqRel'}.get(l[6], '?'), l[7], ' (message %d)' % l[2] if l[5] == 1 else '')
+            elif l[3] == 3: d += ': destroys the value and releases the block'
+            elif l[3] == 4: d += ': clones the value'
+            elif l[4] == 1: d += ': returns'
+        if l[0] == 0 and len(l) >= 8: d += ': fetch_add(%s) read %d' % ({0: 'Relaxed', 1: 'Release', 2: 'Acquire', 3: 'AcqRel'}.get(l[6], '?'), l[7])
+        out.append(d)
+    return out
+
+def sched_shrink(exe, head, labels, budget=250):
+    """delta-debugging of a failing free-mode schedule (readability of the replay only)"""
+    tmp = os.path.join(vlib.CACHE, 'run', 'sched-shrink'); os.makedirs(tmp, exist_ok=True)
+    def bad(cand):
+        cf = os.path.join(tmp, 'c.txt'); vlib.write_cases(cf, [('x', [head] + cand)])
+        rc, out, err = vlib.run_side(exe, 'sched', cf, timeout=60)
+        obs, _ = vlib.parse_obs(out)
+        return rc != 0 or sched_verdict(obs.get('x')) is not None
+    cur = list(labels); n = 2; runs = 0
+    if not bad(cur): return cur
+    while len(cur) >= 2 and runs < budget:
+        chunk = max(1, len(cur) // n); reduced = False
+        for i in range(0, len(cur), chunk):
+            cand = cur[:i] + cur[i + chunk:]; runs += 1
+            if cand and bad(cand):
+                cur = cand; n = max(n - 1, 2); reduced = True; break
+            if runs >= budget: break
+        if not reduced:
+            if chunk == 1: break
+            n = min(len(cur), n * 2)
+    return cur
+
+def make_custom_sched(profile):
+    def custom(tier, rng, facts, replay=None):
+        import collections
+        cov = dict(profile=profile, guided_cases=0, accepted_labels=0, free_cases=0, configs=[], disagreements=0, oracle_failures=0, crashes=0,
+                   label_kinds={}, stale_loads=0, final_states={}, payloads={'with destructor': 0, 'without drop glue': 0})
+        problems = []; nontrivial = set(); samples = []
+        CP = facts.get('count_progs') or {}
+        if not all(k in CP for k in ('drop', 'uniq', 'uoc')):
+            problems.append(('model', 'the counter programs were not translated', dict(kind='unproved', stage='tie2-sched')))
+            return dict(coverage=cov, evaluations=0, nontrivial=nontrivial, problems=problems, samples=samples)
+        prefix = [[200] + sched_enc_prog(CP['drop']), [201] + sched_enc_prog(CP['uniq']), [202] + sched_enc_prog(CP['uoc'])]
+        modelrun = os.path.join(vlib.OCAMLDIR, 'modelrun')
+        ng, nf = (800, 1500) if tier != 'thorough' else (8000, 20000)
+        rp_case = None
+        if replay:
+            fi = (json.load(open(replay)).get('failing_input') or {})
+            if fi.get('stream') == 'sched' and 'case' in fi: rp_case = fi['case']
+        guided = []; free = []
+        if rp_case is not None:
+            (free if all(len(l) == 3 for l in rp_case[1:]) else guided).append(('replay', rp_case))
+        else:
+            for stream_cases, tag, cnt in ((guided, 'g', ng), (free, 'f', nf)):
+                for cid, ops in load_corpus('sched-' + profile):
+                    if (tag == 'f') == all(len(l) == 3 for l in ops[1:]): stream_cases.append((cid, ops))
+                for i in range(cnt):
+                    n = rng.choice([2, 3, 3]); pay = rng.choice([0, 0, 1])
+                    stream_cases.append(('%s%d' % (tag, i), [[199, n, pay]] + sched_gen(rng, profile, n, rng.randrange(40, 400))))
+        # the model accepts a sub-sequence of each guided raw stream and says what each accepted label looks like
+        mobs = {}
+        raw_guided = [c for c in guided if all(len(l) == 3 for l in c[1][1:])]
+        if raw_guided:
+            mobs, mcr, mstray = sched_run(modelrun, [(cid, [ops[0]] + prefix + ops[1:]) for cid, ops in raw_guided], 'sched-model-' + profile)
+            for cid, rc, err in mcr[:2]:
+                problems.append(('model', 'the extracted machine died on schedule %s' % cid, dict(kind='unproved', stage='tie2-sched', output=err)))
+        real_guided = []
+        for cid, ops in guided:
+            if cid in mobs:
+                acc = [l for l in mobs[cid] if l and l[0] < 900]
+                real_guided.append((cid, [ops[0]] + [l[:5] for l in acc]))
+                cov['accepted_labels'] += len(acc)
+                for l in acc:
+                    cov['label_kinds'][SCHED_KIND[l[0]]] = cov['label_kinds'].get(SCHED_KIND[l[0]], 0) + 1
+                    if l[0] == 9 and l[5] == 1: cov['stale_loads'] += 1
+                fin = [l for l in mobs[cid] if l and l[0] == 900]
+                if fin:
+                    key = 'destroyed=%d freed=%d raced=%d leaked=%d' % tuple(fin[0][1:5]); cov['final_states'][key] = cov['final_states'].get(key, 0) + 1
+                if len(acc) >= 4: nontrivial.add(json.dumps(acc))
+            elif all(len(l) == 5 for l in ops[1:]):      # a replayed guided case carries its classes already
+                real_guided.append((cid, ops))
+        for cid, ops in guided + free:
+            cov['payloads']['without drop glue' if len(ops[0]) > 2 and ops[0][2] == 1 else 'with destructor'] += 1
+        cov['guided_cases'] = len(real_guided); cov['free_cases'] = len(free)
+        cfgs = [('cfg_default', 'debug'), ('cfg_default', 'release')] + ([('cfg_nostd', 'release'), ('cfg_all', 'release')] if tier == 'thorough' else [])
+        evaluations = 0
+        for cfg, prof in cfgs:
+            with vlib.Lock():
+                rc, out, exe = vlib.build_harness(cfg, prof)
+            if rc != 0:
+                problems.append(('build', 'harness does not build against /repo (%s/%s): %s' % (cfg, prof, out[-1500:]), dict(kind='unproved', stage='harness-build', cfg=cfg, profile=prof, output=out[-4000:])))
+                continue
+            cov['configs'].append('%s/%s' % (cfg, prof))
+            iobs, crashes, stray = sched_run(exe, real_guided + free, 'sched-impl-%s-%s-%s' % (profile, cfg, prof))
+            evaluations += len(real_guided) + len(free)
+            casemap = dict(real_guided + free)
+            for cid, rcode, err in crashes[:3]:
+                cov['crashes'] += 1
+                problems.append(('crash', 'harness process died (rc=%s) on schedule %s' % (rcode, cid),
+                                 dict(kind='impl-counterexample', stream='sched', cfg=cfg, profile=prof, case=casemap.get(cid), observation='process died rc=%s' % rcode, stderr=err)))
+            for l in stray[:2]:
+                problems.append(('stray', 'unexpected output line: ' + l[:300], dict(kind='unproved', stage='tie2-sched', line=l[:1000])))
+            noracle = 0; ncorr = 0; first_free_fail = None
+            for cid, ops in real_guided + free:
+                io = iobs.get(cid)
+                if io is None:
+                    if not any(c[0] == cid for c in crashes):
+                        problems.append(('missing', 'no implementation output for schedule %s' % cid, dict(kind='unproved', stage='tie2-sched', case=ops)))
+                    continue
+                why = sched_verdict(io)
+                is_free = all(len(l) == 3 for l in ops[1:])
+                if why:
+                    cov['oracle_failures'] += 1
+                    if is_free and first_free_fail is None: first_free_fail = (cid, ops, io, why)
+                    elif not is_free and noracle < 3:
+                        problems.append(('oracle', 'schedule %s on the real crate (%s/%s): %s' % (cid, cfg, prof, why),
+                                         dict(kind='impl-counterexample', stream='sched', cfg=cfg, profile=prof, case=ops, impl_observation=io, model_observation=mobs.get(cid),
+                                              schedule=sched_describe(io), why=why)))
+                        noracle += 1
+                elif not is_free:
+                    mo = mobs.get(cid)
+                    if mo is not None and io != mo:
+                        cov['disagreements'] += 1
+                        if ncorr < 3:
+                            problems.append(('correspondence', 'the crate and the machine running the translated counter programs disagree on schedule %s (%s/%s)' % (cid, cfg, prof),
+                                             dict(kind='correspondence', stream='sched', cfg=cfg, profile=prof, case=ops, impl_observation=io, model_observation=mo,
+                                                  first_difference=next((i for i, (x, y) in enumerate(zip(io, mo)) if x != y), min(len(io), len(mo))))))
+                        ncorr += 1
+            if first_free_fail is not None:
+                cid, ops, io, why = first_free_fail
+                small = ops[1:]
+                try: small = sched_shrink(exe, ops[0], ops[1:])
+                except Exception: pass
+                cf = os.path.join(vlib.CACHE, 'run', 'sched-shrink', 'final.txt'); vlib.write_cases(cf, [('x', [ops[0]] + small)])
+                rc2, out2, _ = vlib.run_side(exe, 'sched', cf, timeout=60); o2, _ = vlib.parse_obs(out2)
+                io2 = o2.get('x') or io
+                problems.append(('oracle', 'schedule %s on the real crate (%s/%s), shrunk from %d to %d labels: %s' % (cid, cfg, prof, len(ops) - 1, len(small), sched_verdict(io2) or why),
+                                 dict(kind='impl-counterexample', stream='sched', cfg=cfg, profile=prof, case=[ops[0]] + small, original_case=ops, impl_observation=io2,
+                                      schedule=sched_describe(io2), why=sched_verdict(io2) or why,
+                                      how_to_read='threads of the real crate are released one visible step at a time (after each atomic operation on the counter, at the payload destructor, at the payload clone); happens-before is computed from the orderings the crate used')))
+            if len(samples) < 2 and real_guided:
+                cid, ops = real_guided[len(real_guided) // 2]
+                samples.append(dict(stream='sched', case=ops, impl=iobs.get(cid), schedule=sched_describe(iobs.get(cid) or [])))
+        return dict(coverage=cov, evaluations=evaluations, nontrivial=nontrivial, problems=problems[:8], samples=samples)
+    return custom
+
+def SCHED_STREAM(profile):
+    return dict(stream='sched-' + profile, custom=make_custom_sched(profile), custom_replay=True,
+                rule='real threads of the real crate (Arc<payload> with and without drop glue, 2-3 threads) are serialised by the harness: a thread is released up to its next atomic operation on the counter, to the payload destructor or to the payload clone; loads may be handed any older value of the counter that the thread\'s view allows. GUIDED schedules: random label streams filtered by the ConcX machine running the counter programs translated from the source; every accepted label is compared (operation, ordering, value read, what the step does, whether the function returns) and so is the final state (destroyed, released, raced, leaked, handles per thread), the implementation side computing happens-before from the orderings the crate really used. FREE schedules: the same on the implementation alone, as a search for a failing schedule. Profile %s. distinct = distinct accepted guided schedules of 4 or more labels' % profile)
 
 def facts_protocol(facts):
     P = facts.get('protocol') or {}
@@ -1376,6 +1605,11 @@ def c15_side(facts):
 _c15_old_side = PROPS['C15']['side_obligations']
 PROPS['C15']['side_obligations'] = lambda facts: _c15_old_side(facts) + c15_side(facts)
 PROPS['C09']['streams'] = PROPS['C09']['streams'] + [DPANIC_STREAM]
+# the schedule stream: real threads against the machine of the translated counter programs
+PROPS['C02']['streams'] = PROPS['C02']['streams'] + [SCHED_STREAM('drops')]
+PROPS['C03']['streams'] = PROPS['C03']['streams'] + [SCHED_STREAM('unique')]
+PROPS['C08']['streams'] = PROPS['C08']['streams'] + [SCHED_STREAM('unique')]
+PROPS['C09']['streams'] = PROPS['C09']['streams'] + [SCHED_STREAM('unwrap')]
 PROPS['C08']['streams'] = PROPS['C08']['streams'] + [DPANIC_STREAM]
 PROPS['C01']['assumptions'] = PROPS['C01']['assumptions'] + ['a panicking payload destructor: Rust drop glue destroys the remaining fields and elements while unwinding and Box frees its memory on the unwind path (Ctor.run_dpanic; validated by the destructor-panic cases)']
 
